@@ -97,7 +97,7 @@ func cmdCheck(args []string) int {
 		if *only != "" && !strings.Contains(k, *only) {
 			continue
 		}
-		rep := p.VerifyFunction(c, Options{InlineDepth: 4})
+		rep := p.VerifyFunction(c, Options{InlineDepth: 6})
 		reps = append(reps, rep)
 	}
 	genSecs := time.Since(t0).Seconds() - loadSecs
